@@ -53,10 +53,10 @@ def make_jobs(tier):
     return jobs
 
 
-def check_write(ctx, res, srv, cache, flavour, side, entry, key, algo, n, tag, chunks, declared, write_op="w_write_all"):
+def check_write(ctx, res, srv, cache, flavour, side, entry, key, algo, n, tag, chunks, declared, write_op="w_write_all", opts_extra=None):
     data = ref.gen(n, tag)
     eff = wr.effective_algo(entry, algo)
-    opts = {}
+    opts = dict(opts_extra or {})
     if declared == "correct":
         opts["size"] = n
     rep, trace = wr.do_write(srv, cache, side=side, entry=entry, key=key, algo=algo, n=n, tag=tag, chunks=chunks, opts=opts,
@@ -294,8 +294,19 @@ def worker(ctx, job):
                 # single-call write() loop variant for small streamed inputs
                 if streamed and n <= 8193 and ci == 0:
                     check_write(ctx, res, srv, cache, flavour, side, entry, key, algo, n, tag + 1, chunks, declared, write_op="w_write")
+                    # ... and through the vectored entry point of Write / AsyncWrite
+                    check_write(ctx, res, srv, cache, flavour, side, entry, key, algo, n, tag + 2, chunks, declared, write_op="w_write_all_vectored")
                 if count % 400 == 0:
                     fsutil.wipe(cache)
+    # the same key re-written with explicit entry times that go DOWN (and up again): what is read back is the data of the
+    # latest write, whatever the times say
+    if entry in ("open",):
+        key = "k-times-%s" % entry
+        for j, t_ in enumerate((5000, 10, 0, 2 ** 64 + 1, 7)):
+            before_v = len(res["violations"])
+            check_write(ctx, res, srv, cache, flavour, side, entry, key, algo, 5 + j, 210 + j, [5 + j], "none", opts_extra={"time": str(t_)})
+            for v_ in res["violations"][before_v:]:
+                v_["sig"] = v_["sig"].replace("write:", "rewrite-with-explicit-time:", 1)
     # write, clear through the library, write the very same data again (same process, same digest directories)
     for n in (5, 1025):
         key = ("k-%s" % entry) if keyed else None
